@@ -414,6 +414,24 @@ func oracleDisk(c respCase, err error, before, after map[string]string, fail fun
 			fail("C17-duplicate-not-error", "same output path produced twice without an error: "+dupWhat)
 		}
 	}
+	// per plugin: on success every file that changed on disk is the file some plugin returned,
+	// located beneath THAT plugin's out directory (Join(abs(out), name)), and every plain file a
+	// plugin returned exists there afterwards
+	if err == nil {
+		for _, p := range changed {
+			if _, ok := produced[p]; !ok {
+				fail("C17-write-not-attributable", "file written that is not Join(out, name) of any plugin's returned file: "+p)
+			}
+		}
+		for target, i := range produced {
+			if !under(absOuts[i], target) {
+				continue // escaping names make the run fail; reported by C17-write-outside-out if not
+			}
+			if _, ok := after[target]; !ok {
+				fail("C17-returned-file-missing", fmt.Sprintf("plugin%d returned a file that is not under its out directory afterwards: %s", i, target))
+			}
+		}
+	}
 	// insertion points only into files produced earlier in the same run
 	if err == nil {
 		soFar := map[string]bool{}
